@@ -503,7 +503,11 @@ class PrettyPrinter:
             if isinstance(value, list):
                 value = " ".join(value)
 
-            comment = self.format_comment(spacer, value)
+            if value:
+                comment = self.format_comment(spacer, value)
+            else:
+                # no comments for this key - don't add a trailing space to the line
+                comment = ""
 
         return comment
 
